@@ -304,5 +304,33 @@ def run(ctx):
                         uses = [u for u in f.walk() if f.nodes[u]["k"] == "DeclRefExpr" and f.nodes[u].get("d") == holder["d"]]
                         ok = all(u in then or u in set(f.walk(f.nodes[i]["cond"])) for u in uses)
             unesc.ob(f.q, f.text(c), ok, "length returned by UnEscape must be used only under `len != 0`", f.loc(c))
+    # ---------------- PR-forward: the public overloads hand the caller's text and length on unchanged
+    fwd = Rule("PR-forward", "the public JSON::Parse overloads forward the caller's (content, length) unchanged", floor=3)
+    for g in m.fns("Qentem::JSON::Parse"):
+        if g.inst:
+            continue
+        ctx.note_fn(g)
+        cs = [c for c in astq.calls(g) if (g.call_simple_name(c) or "") == "Parse"]
+        pnames = [p_["n"] for p_ in g.params]
+        if len(cs) != 1:
+            fwd.ob(g.sig, "forwarding call", False, "expected exactly one call of the next Parse overload, found %d" % len(cs), "Include/JSON.hpp:%d" % g.line)
+            continue
+        args = [g.strip_casts(a) for a in g.call_args(cs[0])]
+
+        def unwrap(x):
+            n_ = g.nodes[x]
+            while n_["k"] in ("CXXFunctionalCastExpr", "CXXUnresolvedConstructExpr", "CStyleCastExpr", "CXXStaticCastExpr", "ParenExpr", "InitListExpr") and len(n_.get("ch", [])) == 1:
+                x = g.strip_casts(n_["ch"][0])
+                n_ = g.nodes[x]
+            return x
+        texts = [g.text(unwrap(a)) for a in args]
+        ok_c = "content" in pnames and "content" in texts
+        if "length" in pnames:
+            ok_l = "length" in texts
+            why = "passes %s (want the parameters content and length themselves)" % texts
+        else:
+            ok_l = any(t.replace(" ", "") in ("Count(content)", "StringUtils::Count(content)") for t in texts)
+            why = "passes %s (want content and Count(content))" % texts
+        fwd.ob(g.sig, g.text(cs[0])[:70], ok_c and ok_l, why, g.loc(cs[0]))
     from rules.common import rule_narrow_units
-    return [gate, fail, closed, unesc, rule_narrow_units(ctx, m, ["JSON.hpp", "JSONUtils.hpp", "StringUtils.hpp"])]
+    return [gate, fail, closed, unesc, fwd, rule_narrow_units(ctx, m, ["JSON.hpp", "JSONUtils.hpp", "StringUtils.hpp"])]
